@@ -161,7 +161,7 @@ class Seams:
         t_proto._is_linux = flag
 
     # -- synthetic user with a scratch home directory (real files, private) --------------
-    def home(self):
+    def home(self, nonascii=False):
         """Create (once per run) the scratch home of the synthetic user and point HOME,
         getpass and pwd at it.  Returns the path."""
         if self._home is not None:
@@ -170,7 +170,8 @@ class Seams:
         import pwd
         import shutil
         base = os.environ.get('VERIF_SCRATCH') or os.path.join(scratch_base(), 'txdbus-sim-%d' % os.getppid())
-        path = os.path.join(base, 'w%d' % os.getpid())
+        # (a home directory need not have an ASCII name)
+        path = os.path.join(base, ('j\u00f6rg-w%d' if nonascii else 'w%d') % os.getpid())
         shutil.rmtree(path, ignore_errors=True)
         os.makedirs(path, 0o700)
         self._home = path
